@@ -4,9 +4,9 @@ package checks
 
 import (
 	"bytes"
-	"math/big"
 	"encoding/json"
 	"fmt"
+	"math/big"
 	"os"
 	"os/exec"
 	"path/filepath"
@@ -89,7 +89,7 @@ func c13Run(c *ev.Ctx, sc *c13Scenario) func() (func(*vsched.Sched), func(), fun
 					done.Send(i)
 				})
 			}
-				vhttp.Net().AwaitHeld()
+			vhttp.Net().AwaitHeld()
 			for range sc.Reqs {
 				done.Recv()
 			}
@@ -220,7 +220,7 @@ func c13Body(c *ev.Ctx) {
 		}
 		var mu sync.Mutex
 		nfail := 0
-		e := &vsched.Explorer{Bound: jb.bound, Fine: true, UseKeys: false, MaxSteps: 2000000, Workers: 1, /* one execution at a time: the code under test may (wrongly) hold package-level state, which parallel executions in one process would share */ Deadline: c.Deadline, NewRun: c13Run(c, &sc), AfterRun: vhttp.Uninstall,
+		e := &vsched.Explorer{Bound: jb.bound, Fine: true, UseKeys: false, MaxSteps: 2000000, Workers: 1 /* one execution at a time: the code under test may (wrongly) hold package-level state, which parallel executions in one process would share */, Deadline: c.Deadline, NewRun: c13Run(c, &sc), AfterRun: vhttp.Uninstall,
 			// alternatives only between connection (handler) threads: the interleavings of
 			// connection set-up, clients and server start-up/shut-down belong to C14
 			Filter: func(p *vsched.Point, alt int) bool {
